@@ -276,6 +276,8 @@ var checks = map[string]*check{
 		Parts: []part{
 			{Name: "matrix", Kind: "enum", Bin: "e3.test", Test: "TestC14"},
 			// under the virtual clock: a working pair is left completely idle for 2.5 minutes (thorough: up to 12) and then used again
+			// ... and left running for 200 (thorough: 400) virtual days, with and without AutoMTLS, then used again
+			{Name: "uptime", Kind: "explore", Scen: "uptime_session", Inst: inst("quick", "thorough"), Depths: depths([]int{0}, []int{0}), Budget: budget(2*time.Minute, 5*time.Minute)},
 			{Name: "idle-session", Kind: "explore", Scen: "idle_session", Inst: inst("quick", "thorough"), Depths: depths([]int{0}, []int{0, 1}), Budget: budget(2*time.Minute, 10*time.Minute)},
 		},
 	},
